@@ -41,16 +41,16 @@ func ToUnicode(name string, dingbats bool) []rune {
 	parts := strings.Split(name, "_")
 	for _, part := range parts {
 		if dingbats {
-			c, ok := glyph.lookup("zapfdingbats", part)
+			c, ok := glyph.lookupAll("zapfdingbats", part)
 			if ok {
-				res = append(res, c)
+				res = append(res, c...)
 				continue
 			}
 		}
 
-		c, ok := glyph.lookup("glyphlist", part)
+		c, ok := glyph.lookupAll("glyphlist", part)
 		if ok {
-			res = append(res, c)
+			res = append(res, c...)
 			continue
 		}
 
@@ -117,6 +117,7 @@ func FromUnicode(r rune) string {
 type glyphMap struct {
 	sync.Mutex
 	nameToRune map[string]map[string]rune
+	nameToMore map[string]map[string][]rune // further characters of multi-character entries
 	runeToName map[rune]string
 }
 
@@ -174,12 +175,26 @@ func (gm *glyphMap) lookup(file, name string) (rune, bool) {
 	return c, ok
 }
 
+// lookupAll returns all characters of a glyph list entry.
+func (gm *glyphMap) lookupAll(file, name string) ([]rune, bool) {
+	gm.Lock()
+	defer gm.Unlock()
+
+	fMap := gm.getFile(file)
+	c, ok := fMap[name]
+	if !ok {
+		return nil, false
+	}
+	return append([]rune{c}, gm.nameToMore[file][name]...), true
+}
+
 func (gm *glyphMap) getFile(file string) map[string]rune {
 	fMap := gm.nameToRune[file]
 	if fMap != nil {
 		return fMap
 	}
 	fMap = make(map[string]rune)
+	more := make(map[string][]rune)
 
 	fd, err := glyphData.Open("agl-aglfn/" + file + ".txt")
 	if err != nil {
@@ -194,7 +209,16 @@ func (gm *glyphMap) getFile(file string) map[string]rune {
 		}
 		ww := strings.SplitN(line, ";", 2)
 		name := ww[0]
-		code, _ := strconv.ParseInt(ww[1], 16, 32)
+		// an entry may denote several characters ("05D3 05B2")
+		fields := strings.Fields(ww[1])
+		if len(fields) == 0 {
+			continue
+		}
+		code, _ := strconv.ParseInt(fields[0], 16, 32)
+		for _, field := range fields[1:] {
+			c, _ := strconv.ParseInt(field, 16, 32)
+			more[name] = append(more[name], rune(c))
+		}
 
 		// fix up some swapped character codes
 		switch {
@@ -211,11 +235,13 @@ func (gm *glyphMap) getFile(file string) map[string]rune {
 	}
 
 	gm.nameToRune[file] = fMap
+	gm.nameToMore[file] = more
 	return fMap
 }
 
 var glyph = &glyphMap{
 	nameToRune: make(map[string]map[string]rune),
+	nameToMore: make(map[string]map[string][]rune),
 }
 
 //go:embed agl-aglfn/*.txt
